@@ -136,6 +136,38 @@ class SimDateTime(REAL, metaclass=_Meta):
         return REAL.fromordinal(*a, **k)
 
 
+class _MetaD(type):
+    def __instancecheck__(cls, obj):
+        return isinstance(obj, _dt.date)
+
+    def __subclasscheck__(cls, sub):
+        return issubclass(sub, _dt.date)
+
+
+class SimDate(_dt.date, metaclass=_MetaD):
+    """Stand-in for `from datetime import date` (date.today() reads the simulated clock)."""
+
+    def __new__(cls, *a, **k):
+        return _dt.date(*a, **k)
+
+    @classmethod
+    def today(cls):
+        us = _clock.read(_site())
+        return local_naive(us).date()
+
+    @classmethod
+    def fromtimestamp(cls, *a, **k):
+        return _dt.date.fromtimestamp(*a, **k)
+
+    @classmethod
+    def fromordinal(cls, *a, **k):
+        return _dt.date.fromordinal(*a, **k)
+
+    @classmethod
+    def fromisoformat(cls, *a, **k):
+        return _dt.date.fromisoformat(*a, **k)
+
+
 SimDateTime.min = REAL.min
 SimDateTime.max = REAL.max
 SimDateTime.resolution = REAL.resolution
@@ -155,6 +187,7 @@ def _proxies():
         m = types.ModuleType("datetime")
         m.__dict__.update({k: v for k, v in _dt.__dict__.items() if not k.startswith("__")})
         m.datetime = SimDateTime
+        m.date = SimDate
         _dt_proxy = m
         t = types.ModuleType("time")
         t.__dict__.update({k: v for k, v in _time.__dict__.items() if not k.startswith("__")})
@@ -219,6 +252,21 @@ def refresh(force=False):
             elif v is _time:
                 d[k] = tp
                 hits += 1
+            elif v is _dt.date:
+                d[k] = SimDate
+                hits += 1
+            elif v is _time.time:
+                d[k] = tp.time
+                hits += 1
+            elif v is _time.time_ns:
+                d[k] = tp.time_ns
+                hits += 1
+            elif v is _time.localtime:
+                d[k] = tp.localtime
+                hits += 1
+            elif v is _time.gmtime:
+                d[k] = tp.gmtime
+                hits += 1
     _patched_count = len(sys.modules)
     return hits
 
@@ -273,7 +321,7 @@ class LeakAudit:
             name = getattr(arg, "__name__", "")
             if name in self.NAMES and frame.f_code.co_filename.startswith(self.prefix):
                 owner = getattr(arg, "__self__", None)
-                if owner is REAL or owner is _time or (isinstance(owner, type) and issubclass(owner, REAL) and owner is not SimDateTime):
+                if owner is REAL or owner is _time or owner is _dt.date or (isinstance(owner, type) and issubclass(owner, _dt.date) and owner not in (SimDateTime, SimDate)):
                     self.hits.append("%s:%d %s" % (os.path.basename(frame.f_code.co_filename), frame.f_lineno, name))
 
     def __enter__(self):
